@@ -14,7 +14,8 @@ if ! git apply $src/patch.diff 2>>$log; then patch -p1 --fuzz=3 -s < $src/patch.
 find . -name '*.orig' -delete; find . -name '*.rej' -delete
 git diff > $wt.rebased.diff
 go build ./... >>$log 2>&1 || { echo "$prop-$m: BUILD FAILS"; git -C /repo worktree remove --force $wt; exit 1; }
-go test -vet=off -count=1 ./... 2>&1 | grep -E "^(FAIL[[:space:]]+goa|--- FAIL|panic:)" | grep -v "grpc/codegen" | grep -v "TestProtoFiles\|TestMessageDefSection" > $wt.fails
+# package-level verdicts only; grpc/codegen needs protoc, the xray packages bind a fixed UDP port and flake when suites run concurrently
+go test -vet=off -count=1 ./... 2>&1 | grep -E "^(FAIL[[:space:]]+goa|panic:)" | grep -v "grpc/codegen" > $wt.fails
 # tolerate the known-flaky xray test
 grep -v "xray" $wt.fails > $wt.fails2
 if [ -s $wt.fails2 ]; then echo "$prop-$m: SUITE HAS NEW FAILURES:"; head -5 $wt.fails2; git -C /repo worktree remove --force $wt; exit 1; fi
